@@ -99,6 +99,14 @@ func regoStringList(values []string) string {
 	return strings.Join(quoted, ",")
 }
 
+// regoStringSet renders the values as a Rego set of string literals ("{}" would be an empty object, not an empty set)
+func regoStringSet(values []string) string {
+	if len(values) == 0 {
+		return "set()"
+	}
+	return "{ " + regoStringList(values) + "}"
+}
+
 // regoString renders s as a Rego string literal (JSON syntax), quotes included
 func regoString(s string) string {
 	var b bytes.Buffer
